@@ -45,6 +45,7 @@ REPO = os.path.dirname(os.path.dirname(TP))
 # ------------------------------------------------------------------ site table (from the translator)
 
 ROWS = SW.scan()
+EVOPS = {}          # (abs path, first line of the function) -> [(letter, span, target_code, value_code, key)]
 EVLINES = {}        # (abs path, line) -> [(order, letter, target_code, value_code, key)]
 SITEFUNCS = set()   # (abs path, first line of the function)
 STMT_END = {}       # (abs path, first line of a multi-line statement in a site function) -> last line
@@ -53,7 +54,8 @@ STMT_END = {}       # (abs path, first line of a multi-line statement in a site 
 def _build_tables():
     seen = set()
     for r in ROWS:
-        if r["valueKind"] in ("keyedCache", "publishedIncomplete", "transientEntries", "checkThenGet", "modeToggle") and r.get("first_line"):
+        if r["valueKind"] in ("keyedCache", "publishedIncomplete", "transientEntries", "checkThenGet", "modeToggle",
+                              "readModifyWrite") and r.get("first_line"):
             # functions that fill a module-level cache: every line is a yield point in the "sitelines" scope
             SITEFUNCS.add((os.path.abspath(os.path.join(SW.repo_dir(), r["path"])), r["first_line"]))
         if not r.get("events") or r["valueKind"] not in ("perCall", "ownerName"):
@@ -80,6 +82,12 @@ def _build_tables():
             seen.add(sig)
             EVLINES.setdefault((path, line), []).append((order, letter, t, v, key))
 
+        for letter, *span in ev.get("ops", []):
+            sig = (path, tuple(span), letter, r["target"] if letter != "N" else "")
+            if sig not in seen:
+                seen.add(sig)
+                EVOPS.setdefault((path, r["first_line"]), []).append(
+                    (letter, tuple(span), tgt if letter != "N" else None, val if letter == "W" else None, key))
         add(ev["W"], (0, 0, 0), "W", tgt, val)
         for l in ev["S"]:
             add(l, (0, 0, 0), "S", tgt, None)
@@ -424,6 +432,14 @@ def _build_shape(name):
              "class Customer(Structure):\n    name: str\n    visits: int = 0\n"
              "    address: Address = Address(city='Paris', zip_code='75001')\n", ns)  # pylint: disable=exec-used
         return Shape(name, ns["Customer"])
+    if name == "unique_field":
+        # the opt-in uniqueness feature (TypedPyDefaults.uniqueness_features_enabled): a registry on the shared Field object
+        class Person(Structure):
+            ssid = String(is_unique=True)
+            n = Integer
+            _required = []
+        return Shape(name, Person, extra={
+            "joint_key": "shared-<container>:structures.py:UniqueMixin.__manage_uniqueness_for_field__"})
     if name == "warm_ser":
         # scalar SerializableFields: their deserialize / serialize / __set__ run on the field object shared by all instances
         class Booking(Structure):
@@ -695,6 +711,8 @@ def gen_value(rng, sname, field, bad=0.2):
         return {"d": {"code": "C" + str(_BASE[0]), "digits": _int(rng, 0.0)}} if field in ("currency", "fallback") else _int(rng, 0.0)
     if sname == "shared_default":
         return {"name": "n" + str(_BASE[0]), "visits": _int(rng, 0.0)}[field]
+    if sname == "unique_field":
+        return "id%d" % rng.randint(0, 2) if field == "ssid" else _int(rng, 0.0)
     if sname == "warm_ser":
         # documents: everything as the strings / numbers a JSON document carries
         return {"day": lambda: "2024-%02d-%02d" % (rng.randint(1, 12), rng.randint(1, 28)),
@@ -868,6 +886,8 @@ def reset_caches(sh):
             f._name = None          # the state right after the class definition
         if getattr(f, "_serialize", None) is not None:
             f._serialize = None
+        if isinstance(getattr(f, "_ALL_INSTANCES", None), dict):
+            f._ALL_INSTANCES.clear()        # the uniqueness registry of an is_unique field: empty, as after the definition
         its = getattr(f, "items", None)
         for x in (its if isinstance(its, (list, tuple)) else [its]):
             walk(x, False)
@@ -912,6 +932,7 @@ class Run:
         self.writes = []              # (key, id(obj), value, tid)
         self.timeout = False
         self._codes = {}
+        self._opmaps = {}
 
     # -- tracing
     def _in_scope(self, code):
@@ -925,7 +946,8 @@ class Run:
             elif self.scope == "fieldlines":
                 # every line of the field implementations and of the generic __set__ / _validate / __setattr__ code
                 r = 1 if (os.sep + "fields" + os.sep in fn or os.sep + "extfields" + os.sep in fn
-                          or code.co_name in ("__set__", "_validate", "__setattr__", "deserialize", "serialize")) else 0
+                          or code.co_name in ("__set__", "_validate", "__setattr__", "deserialize", "serialize")
+                          or "uniqueness" in code.co_name) else 0
             elif self.scope == "serlines":
                 # the code that runs ON a shared SerializableField object: extfields/, every deserialize / serialize method
                 r = 1 if (os.sep + "extfields" + os.sep in fn or code.co_name in ("deserialize", "serialize")
@@ -957,11 +979,13 @@ class Run:
                             return local
                 if evs is None and events_only:
                     return local
-                self.yield_point(tid, frame, evs)
+                # bytecode mode: the events are logged at the very instruction that performs the access, not at the line
+                self.yield_point(tid, frame, None if opcodes else evs)
             elif event == "opcode":
                 code = frame.f_code
-                if code.co_code[frame.f_lasti] in hot:
-                    self.yield_point(tid, frame, None)
+                evs = self._opmap(code).get(frame.f_lasti)
+                if evs is not None or code.co_code[frame.f_lasti] in hot:
+                    self.yield_point(tid, frame, evs)
             elif event == "return":
                 last[0] = None
             return local
@@ -973,6 +997,23 @@ class Run:
                 frame.f_trace_opcodes = True
             return local
         return g
+
+    def _opmap(self, code):
+        """instruction offset -> events, for the CALL / STORE instructions whose source span is an event node of the table"""
+        m = self._opmaps.get(code)
+        if m is None:
+            m = {}
+            evs = EVOPS.get((code.co_filename, code.co_firstlineno))
+            if evs:
+                for ins in _dis.get_instructions(code):
+                    if ins.opname not in ("CALL", "CALL_FUNCTION_EX", "STORE_ATTR", "STORE_SUBSCR") or ins.positions is None:
+                        continue
+                    pos = (ins.positions.lineno, ins.positions.col_offset, ins.positions.end_lineno, ins.positions.end_col_offset)
+                    for letter, span, tgt, val, key in evs:
+                        if span == pos:
+                            m.setdefault(ins.offset, []).append((0, letter, tgt, val, key))
+            self._opmaps[code] = m
+        return m
 
     def yield_point(self, tid, frame, evs):
         with self.cond:
@@ -1210,6 +1251,7 @@ def sequential(case):
     n = len(case["threads"])
     alone = [None] * n
     allowed = [[] for _ in range(n)]
+    vectors = []        # the result vector of every sequential order: a concurrent run must reproduce ONE of them as a whole
     for perm in itertools.permutations(range(n)):
         sh = run_shape(case["shape"])
         reset_caches(sh)
@@ -1229,7 +1271,14 @@ def sequential(case):
                 alone[i] = r
             if r not in allowed[i]:
                 allowed[i].append(r)
+        vec = [r for _, r in sorted(outs, key=lambda x: x[0])]
+        if vec not in vectors:
+            vectors.append(vec)
+    _VECTORS[id(allowed)] = vectors
     return alone, allowed
+
+
+_VECTORS = {}
 
 
 def enumerate_runs(case, scope, max_pre, cap, rng):
@@ -1282,6 +1331,95 @@ def sample_runs(case, max_pre, nsched, rng):
         sch = {"first": first, "pre": pre}
         runs.append((sch, run_schedule(case, sch, "all")))
     return runs
+
+
+# ------------------------------------------------------------------ dynamic probe: who writes shared Field objects?
+
+
+def reachable_fields(sh):
+    out, seen = [], set()
+
+    def walk(f):
+        if f is None or id(f) in seen or not isinstance(f, Field):
+            return
+        seen.add(id(f))
+        out.append(f)
+        its = getattr(f, "items", None)
+        for x in (its if isinstance(its, (list, tuple)) else [its]):
+            walk(x)
+        for x in getattr(f, "_fields", None) or []:
+            walk(x)
+        ty = getattr(f, "_ty", None)
+        if isinstance(ty, type) and issubclass(ty, Structure):
+            for g in ty.get_all_fields_by_name().values():
+                walk(g)
+    for c in sh.classes:
+        for f in c.get_all_fields_by_name().values():
+            walk(f)
+    return out
+
+
+def probe_writers(case):
+    """run the operations of the case ONE AFTER THE OTHER under a line tracer and report every typedpy line after which the
+    attribute dictionary of a Field object reachable from the classes had changed: [(relative path, function, line)].
+    Independent of the translator: whatever idiom performs the write (setattr, assignment, __dict__, object.__setattr__,
+    a container method), the change is seen."""
+    sh = run_shape(case["shape"])
+    reset_caches(sh)
+    run_history(case, sh)
+    objs = reachable_fields(sh)
+
+    def atom(v):
+        if isinstance(v, (str, int, float, bool, type(None))):
+            return v
+        if isinstance(v, (dict, list, set)):
+            return (id(v), len(v))
+        return id(v)
+
+    def digest():
+        return [sorted((k, atom(v)) for k, v in vars(o).items()) for o in objs]
+    state = {"d": digest(), "prev": None}
+    writers = set()
+
+    def local(frame, event, arg):
+        if event in ("line", "return"):
+            d = digest()
+            if d != state["d"]:
+                if state["prev"]:
+                    writers.add(state["prev"])
+                state["d"] = d
+            if event == "line":
+                state["prev"] = (os.path.relpath(frame.f_code.co_filename, REPO), frame.f_code.co_name, frame.f_lineno)
+        return local
+
+    def g(frame, event, arg):
+        return local if frame.f_code.co_filename.startswith(TP) else None
+    base = get_modes()
+    set_modes(case.get("modes", {}))
+    try:
+        ops = build_ops(case, sh)
+        sys.settrace(g)
+        try:
+            for op in ops:
+                outcome_of(op)
+        finally:
+            sys.settrace(None)
+    finally:
+        set_modes(base)
+    return sorted(writers)
+
+
+_PROBED_SHAPES = set()
+
+
+def untabled_writers(writers):
+    """dynamic writers that no row of the shared-write table covers (same file, same function, line inside it)"""
+    out = []
+    for path, func, line in writers:
+        if not any(r["path"] == path and r["func"].split(".")[-1] == func and
+                   r.get("first_line", 0) <= line <= r.get("last_line", 10 ** 9) for r in ROWS):
+            out.append([path, func, line])
+    return out
 
 
 # ------------------------------------------------------------------ model side
@@ -1377,6 +1515,7 @@ def model_as_canon(sh, th, mo):
 def run_impl(case):
     rng = random.Random(case["sseed"])
     seq, allowed = sequential(case)
+    vectors = _VECTORS.pop(id(allowed))
     stream = case["stream"]
     if stream in ("A", "E"):
         runs = enumerate_runs(case, case.get("yield", "events"), case["max_pre"], case["cap"], rng)
@@ -1386,17 +1525,27 @@ def run_impl(case):
     nonseq = 0
     for sch, r in runs:
         bad = [i for i in range(len(seq)) if r.results[i] not in allowed[i]]
+        joint = not bad and r.results not in vectors     # every thread explainable, but by DIFFERENT sequential orders
+        if joint:
+            bad = list(range(len(seq)))
         nonseq += 1 if bad else 0
         msched = [tid for tid, _ in r.events] if stream == "A" else None
         mode_dev = getattr(r, "mode_dev", None) or None
         k = json.dumps([msched, r.results], sort_keys=True) if stream == "A" else json.dumps([r.results, r.conflicts(), mode_dev], sort_keys=True)
         if k not in distinct:
             per_thread = [[e for t, e in r.events if t == i] for i in range(len(seq))] if stream == "A" else None
-            distinct[k] = {"sched": sch, "res": r.results, "bad": bad, "conflicts": r.conflicts(), "mode": mode_dev,
+            distinct[k] = {"sched": sch, "res": r.results, "bad": bad, "joint": joint, "conflicts": r.conflicts(), "mode": mode_dev,
                            "msched": msched, "events": per_thread, "count": 0,
                            "wsites": sorted({(r.cell_ids.get(oid, -1), key) for key, oid, _, _ in r.writes}) if stream == "A" else None}
         distinct[k]["count"] += 1
-    return {"seq": seq, "allowed": allowed, "runs": len(runs), "nonseq": nonseq, "outcomes": list(distinct.values())}
+    # the dynamic probe runs for every stream-A case and once per shape (and operation mix) for the other streams
+    pkey = (case["shape"], tuple(sorted(th["op"] for th in case["threads"])), json.dumps(case.get("modes", {}), sort_keys=True))
+    gaps = []
+    if stream == "A" or pkey not in _PROBED_SHAPES:
+        _PROBED_SHAPES.add(pkey)
+        gaps = untabled_writers(probe_writers(case))
+    return {"seq": seq, "allowed": allowed, "vectors": vectors, "runs": len(runs), "nonseq": nonseq,
+            "outcomes": list(distinct.values()), "untabled": gaps}
 
 
 def line(case, impl):
@@ -1410,6 +1559,11 @@ def line(case, impl):
 
 
 def correspondence(case, impl, model):
+    if impl.get("untabled"):
+        # the tie between the translator and the code: a write to a shared Field object that the AST scan did not list
+        return ("shared Field object written at " + ", ".join(f"{p}:{l} ({f})" for p, f, l in impl["untabled"]) +
+                " but the shared-write table has no row for that function (translator gap: the model would treat the "
+                "object as private)")
     if case["stream"] != "A":
         return None
     sh = shape(case["shape"])
@@ -1479,6 +1633,21 @@ def oracle(case, impl):
         i = o["bad"][0]
         th = case["threads"][i]
         got = o["res"][i]
+        if o.get("joint"):
+            # each thread's result occurs in SOME sequential order, but no single order produces all of them together
+            # (e.g. two operations that both behave as if they had been first)
+            def stripped(vec):
+                return [dict(r, msg=_strip_names(r["msg"]), field=None) if "err" in r else r for r in vec]
+            only_names = stripped(o["res"]) in [stripped(v) for v in impl.get("vectors", [])]
+            j = next((j for j, r in enumerate(o["res"]) if "err" in r and r != impl["seq"][j]), i)
+            key = (f"residual-name-in-message:{case['threads'][j]['op']}" if only_names else
+                   shape(case["shape"]).extra.get("joint_key") or f"no-common-order:{case['shape']}")
+            if key not in seen:
+                seen.add(key)
+                fails.append((key, f"shape {case['shape']} threads {json.dumps(case['threads'])} schedule "
+                                   f"{json.dumps(o['sched'])}: results {json.dumps(o['res'])[:300]} occur in sequential orders, "
+                                   f"but in no single one together (sequential result vectors: {json.dumps(impl.get('vectors'))[:300]})"))
+            continue
         if (not o["conflicts"] and "err" in got
                 and any("err" in a and a["err"] == got["err"] and _strip_names(a["msg"]) == _strip_names(got["msg"])
                         for a in impl["allowed"][i])):
@@ -1598,8 +1767,6 @@ CANONICAL_B = [
 ]
 
 CANONICAL_E = [
-    ("shared_anyof", 5, 7),
-    ("shared_allof", -1, 7),
     ("shared_immset", {"fs": [1, 2]}, {"fs": [3]}),
 ]
 
@@ -1631,17 +1798,28 @@ def gen_cases(rng, tier, scale=1.0):
         if sname in ("array_int", "shared_set", "map_int") or not quick:
             add("A", sname, 3, max_pre=2, cap=120 if quick else 600)
     for sname in A2_SHAPES:
-        for _ in range(reps_a if (not quick or shape(sname).racy) else 1):
+        for _ in range(1 if quick else reps_a):
             add("A", sname, 2, max_pre=max_pre, cap=100 if quick else 500)
         if not quick:
             add("A", sname, 3, max_pre=2, cap=400)
+    # the same correspondence at BYTECODE granularity: yield points = every attribute / item / call instruction of the site
+    # functions, events logged at the very CALL / STORE instruction that performs the shared access (so the two loads of
+    # Map's read-back statement, or a load and a store inside one statement, can be separated)
+    for sname, v0, v1 in (rng.sample(CANONICAL, 4) if quick else CANONICAL):
+        fl = pick_fields(rng, sname, 2)
+        cases.append({"stream": "A", "shape": sname, "sseed": 1, "max_pre": 1 if quick else 2, "cap": 120 if quick else 500,
+                      "yield": "siteops",
+                      "threads": [{"op": "setattr", "field": fl[0], "value": v0},
+                                  {"op": "setattr", "field": fl[1], "value": v1}]})
+    for sname in (rng.sample(A_SHAPES + A2_SHAPES, 2) if quick else A_SHAPES + A2_SHAPES):
+        add("A", sname, 2, max_pre=1 if quick else 2, cap=120 if quick else 300, **{"yield": "siteops"})
     for sname, v0, v1 in CANONICAL_E:
         fl = pick_fields(rng, sname, 2)
         cases.append({"stream": "E", "shape": sname, "sseed": 1, "max_pre": 2, "cap": 400, "yield": "sitelines",
                       "threads": [{"op": "setattr", "field": fl[0], "value": v0},
                                   {"op": "setattr", "field": fl[1], "value": v1}]})
     reps_e = max(1, int((1 if quick else 3) * scale))
-    for sname in (rng.sample(E_SHAPES, 13) if quick else E_SHAPES):
+    for sname in (rng.sample(E_SHAPES, 10) if quick else E_SHAPES):
         for _ in range(reps_e):
             flat = sname in ("anyof", "oneof", "allof", "notfield") or sname.startswith("shared_")
             add("E", sname, 2, max_pre=max_pre, cap=100 if quick else 320, **({"yield": "sitelines"} if flat else {}))
@@ -1734,17 +1912,21 @@ def gen_cases(rng, tier, scale=1.0):
     # the field implementations / generic __set__, _validate (table independent) + line-level sampling
     for sname in ENUM_SHAPES:
         add_ops("E", sname, [rng.choice(["setattr", "construct"]) for _ in range(2)], max_pre=1 if quick else 2,
-                cap=150 if quick else 300, **{"yield": "fieldlines"})
+                cap=100 if quick else 300, **{"yield": "fieldlines"})
         if not quick or rng.random() < 0.5:
             add_ops("B", sname, [rng.choice(["setattr", "construct", "deserialize"]) for _ in range(3 if not quick else 2)],
                     max_pre=max_pre, nsched=20 if quick else 40)
     # the same exhaustive every-field-line stream on a few of the other flat shapes
+    # (racy shapes included: there the schedules do NOT depend on what the translator found, so a shared write it missed
+    # still produces a failing input)
     for sname in rng.sample(["scalar", "anyof", "oneof", "allof", "notfield", "set_int", "map_int", "pos_tuple",
-                             "twin_optional_field", "twin_anyof_none", "ser_set_date", "ser_map_date"], 2 if quick else 8):
+                             "twin_optional_field", "twin_anyof_none", "ser_set_date", "ser_map_date"], 2 if quick else 8) + \
+            rng.sample(["array_int", "deque_int", "tuple_homog", "shared_set", "shared_map", "shared_pos_array",
+                        "shared_pos_tuple", "shared_anyof", "shared_allof", "shared_immset"], 2 if quick else 10):
         if sname.startswith("twin_"):
             add_twin("E", sname, 2, max_pre=1, cap=200, **{"yield": "fieldlines"})
         else:
-            add("E", sname, 2, max_pre=1, cap=200, **{"yield": "fieldlines"})
+            add("E", sname, 2, max_pre=1, cap=120 if quick else 200, **{"yield": "fieldlines"})
     # collect-all error mode for the whole schedule: a deserializing thread (multi-field wrapper with a nested-structure
     # option) against a constructing thread whose input has several invalid fields; exception class and full message are
     # compared with the sequential result, and the process-wide mode flags must be what they were
@@ -1823,17 +2005,29 @@ def gen_cases(rng, tier, scale=1.0):
         cases.append({"stream": "E", "shape": "warm_ser", "threads": ths, "sseed": rng.randrange(1 << 30), "max_pre": 1,
                       "cap": 400, "yield": "serlines",
                       "history": [{"op": rng.choice(["construct", "deserialize"]), "kw": dict(hist, n=0)}]})
+    # is_unique fields with the uniqueness feature switched on: EQUAL (and different) values in the threads; every line of
+    # the field implementations and of the registry functions is a yield point (independent of the table); the result
+    # VECTOR must be that of one sequential order
+    for k in range(1 if quick else 4):
+        ths = []
+        same = "id%d" % rng.randint(0, 2)
+        for i in range(2 if k < 3 else 3):
+            _BASE[0] = i
+            ths.append({"op": rng.choice(["construct", "deserialize"]),
+                        "kw": {"ssid": same if (k % 2 == 0 or i == 0) else "other%d" % i, "n": _int(rng, 0.0)}})
+        cases.append({"stream": "E", "shape": "unique_field", "threads": ths, "sseed": rng.randrange(1 << 30), "max_pre": 1,
+                      "cap": 120 if quick else 300, "yield": "fieldlines", "modes": {"uniqueness_features_enabled": True}})
     # BYTECODE-level pre-emption inside the functions of the shared-write table (CPython's real granularity): every
     # attribute / item / global access and call of a site function is a yield point; exhaustive for one pre-emption
     # (quick) / two (thorough); oracle only
     ops_shapes = [x for x in A_SHAPES + A2_SHAPES if shape(x).racy or x in ("array_two_fields", "anyof", "immset")]
-    for sname in (rng.sample(ops_shapes, 5) if quick else ops_shapes):
-        add("E", sname, 2, max_pre=1 if quick else 2, cap=250 if quick else 300, **{"yield": "siteops"})
+    for sname in (rng.sample(ops_shapes, 3) if quick else ops_shapes):
+        add("E", sname, 2, max_pre=1 if quick else 2, cap=150 if quick else 300, **{"yield": "siteops"})
     for sname in (rng.sample(COLD_SHAPES, 1) if quick else COLD_SHAPES):
         for ops in ([["deserialize", "deserialize"]] if quick else [["deserialize", "deserialize"], ["serialize", "serialize"]]):
             add_ops("E", sname, ops, max_pre=1, cap=400, **{"yield": "siteops"})
     reps_b = max(1, int((1 if quick else 4) * scale))
-    for sname in (rng.sample(ALL_SHAPES, 14) if quick else ALL_SHAPES):
+    for sname in (rng.sample(ALL_SHAPES, 11) if quick else ALL_SHAPES):
         for _ in range(reps_b):
             add("B", sname, 3 if rng.random() < 0.2 else 2, max_pre=max_pre, nsched=20 if quick else 35)
     return cases
